@@ -75,4 +75,71 @@ theorem utf8Valid_ascii {E : Bytes} (hE : ∀ c ∈ E, c.toNat < 128) : utf8Vali
   rw [this]
   simp [utf8DecodeFuel]
 
+
+theorem toNat_ofNat_lt {n : Nat} (h : n < 256) : (UInt8.ofNat n).toNat = n := by
+  simp [UInt8.toNat_ofNat, Nat.mod_eq_of_lt h]
+
+/-- a scalar value (not a surrogate, ≤ U+10FFFF) encodes to a valid UTF-8 string -/
+theorem decodeOne_encodeOne {c : Nat} (h1 : c ≤ 0x10FFFF) (h2 : ¬ (0xD800 ≤ c ∧ c ≤ 0xDFFF)) :
+    ∃ cp, utf8DecodeOne (utf8EncodeOne c) = some (cp, []) := by
+  unfold utf8EncodeOne
+  split
+  · rename_i h
+    exact ⟨_, by simp [utf8DecodeOne, toNat_ofNat_lt (show c < 256 by omega), h]⟩
+  split
+  · rename_i h0 h
+    have e0 := toNat_ofNat_lt (show 0xC0 + c / 64 < 256 by omega)
+    have e1 := toNat_ofNat_lt (show 0x80 + c % 64 < 256 by omega)
+    refine ⟨_, ?_⟩
+    simp only [utf8DecodeOne, e0, e1, isCont]
+    rw [if_neg (by omega), if_neg (by omega), if_pos (by omega)]
+    simp only [show (0x80 + c % 64) / 64 = 2 by omega, decide_true, if_true]
+  split
+  · rename_i h0 h00 h
+    have e0 := toNat_ofNat_lt (show 0xE0 + c / 4096 < 256 by omega)
+    have e1 := toNat_ofNat_lt (show 0x80 + c / 64 % 64 < 256 by omega)
+    have e2 := toNat_ofNat_lt (show 0x80 + c % 64 < 256 by omega)
+    refine ⟨_, ?_⟩
+    simp only [utf8DecodeOne, e0, e1, e2, isCont]
+    rw [if_neg (by omega), if_neg (by omega), if_neg (by omega), if_pos (by omega)]
+    simp only [show (0x80 + c / 64 % 64) / 64 = 2 by omega, show (0x80 + c % 64) / 64 = 2 by omega, decide_true,
+      Bool.and_self, if_true]
+    have hcp : (0xE0 + c / 4096 - 0xE0) * 4096 + (0x80 + c / 64 % 64 - 0x80) * 64 + (0x80 + c % 64 - 0x80) = c := by
+      omega
+    rw [hcp]
+    rw [if_neg]
+    simp only [Bool.or_eq_true, Bool.and_eq_true, decide_eq_true_eq]
+    omega
+  · rename_i h0 h00 h000
+    have e0 := toNat_ofNat_lt (show 0xF0 + c / 262144 < 256 by omega)
+    have e1 := toNat_ofNat_lt (show 0x80 + c / 4096 % 64 < 256 by omega)
+    have e2 := toNat_ofNat_lt (show 0x80 + c / 64 % 64 < 256 by omega)
+    have e3 := toNat_ofNat_lt (show 0x80 + c % 64 < 256 by omega)
+    refine ⟨_, ?_⟩
+    simp only [utf8DecodeOne, e0, e1, e2, e3, isCont]
+    rw [if_neg (by omega), if_neg (by omega), if_neg (by omega), if_neg (by omega), if_pos (by omega)]
+    simp only [show (0x80 + c / 4096 % 64) / 64 = 2 by omega, show (0x80 + c / 64 % 64) / 64 = 2 by omega,
+      show (0x80 + c % 64) / 64 = 2 by omega, decide_true, Bool.and_self, if_true]
+    have hcp : (0xF0 + c / 262144 - 0xF0) * 262144 + (0x80 + c / 4096 % 64 - 0x80) * 4096 +
+        (0x80 + c / 64 % 64 - 0x80) * 64 + (0x80 + c % 64 - 0x80) = c := by omega
+    rw [hcp]
+    rw [if_neg]
+    simp only [Bool.or_eq_true, decide_eq_true_eq]
+    omega
+
+theorem utf8Valid_encodeOne {c : Nat} (h1 : c ≤ 0x10FFFF) (h2 : ¬ (0xD800 ≤ c ∧ c ≤ 0xDFFF)) :
+    utf8Valid (utf8EncodeOne c) = true := by
+  obtain ⟨cp, h⟩ := decodeOne_encodeOne h1 h2
+  have hl := decodeOne_length h
+  unfold utf8Valid utf8Decode
+  cases hn : (utf8EncodeOne c).length with
+  | zero => rw [hn] at hl; simp at hl
+  | succ k =>
+    cases he : utf8EncodeOne c with
+    | nil => rw [he] at hn; simp at hn
+    | cons b0 rest =>
+      rw [he] at h
+      simp [utf8DecodeFuel, h]
+      cases k <;> simp [utf8DecodeFuel]
+
 end S3V.Xml
